@@ -206,6 +206,11 @@ class ClientWebSocketResponse(Generic[_DecodeText]):
         self._ping_task = None
 
     def _pong_not_received(self) -> None:
+        if self._reader._protocol._reading_paused:
+            # We are the ones not reading (flow control): the PONG may
+            # wait in the socket, no verdict until reading resumes.
+            self._reset_heartbeat()
+            return
         self._handle_ping_pong_exception(
             ServerTimeoutError(f"No PONG received after {self._pong_heartbeat} seconds")
         )
